@@ -3,6 +3,7 @@ use crate::engine::Session;
 use std::path::Path;
 
 pub mod c03;
+pub mod soundness;
 pub mod c08;
 pub mod c09;
 pub mod c10;
@@ -15,6 +16,8 @@ pub mod c20;
 
 pub fn run(session: &Session) -> i32 {
     match session.id {
+        "C01" => soundness::run(session, &soundness::C01),
+        "C02" => soundness::run(session, &soundness::C02),
         "C03" => c03::run(session),
         "C08" => c08::run(session),
         "C09" => c09::run(session),
@@ -34,6 +37,8 @@ pub fn run(session: &Session) -> i32 {
 
 pub fn replay(session: &Session, path: &Path) -> i32 {
     match session.id {
+        "C01" => crate::engine::replay(session, &soundness::C01, path),
+        "C02" => crate::engine::replay(session, &soundness::C02, path),
         "C03" => crate::engine::replay(session, &c03::C03, path),
         "C08" => crate::engine::replay(session, &c08::C08, path),
         "C09" => crate::engine::replay(session, &c09::C09, path),
